@@ -117,6 +117,15 @@ func execC10(seg []Ev) []Ev {
 			e["code"] = errCode(err)
 		default:
 			e["set"] = "ok"
+			// C18: automatic variables as created by SetTemplate (observed before the defaults are overwritten below)
+			autoKeys := []string{}
+			for k := range t.DefaultVariables() {
+				autoKeys = append(autoKeys, strings.ToLower(k))
+			}
+			// the default variables hold sentinel values: a rendering under an explicit map (even an empty one) must not see them
+			for k := range t.DefaultVariables() {
+				t.DefaultVariables()[k] = "<default>"
+			}
 			oc, det = guarded(func() { res, err = t.EvaluateWithVariables(vars) })
 			switch {
 			case oc != "ok":
@@ -141,10 +150,7 @@ func execC10(seg []Ev) []Ev {
 				}
 			}
 			var aj []any
-			keys := []string{}
-			for k := range t.DefaultVariables() {
-				keys = append(keys, strings.ToLower(k))
-			}
+			keys := autoKeys
 			sort.Strings(keys)
 			for _, k := range keys {
 				aj = append(aj, cps(k))
